@@ -101,12 +101,26 @@ Definition into_problem_formula (a : aformula_annot) (r : prole) : pformula :=
   mkpf (an_name a) r (an_formula a).
 
 (* ---------- errors and warnings ---------- *)
+(* the variants of ProofOutlineError / ProofOutlineWarning WITH the values they carry (audit B16:
+   the payload is part of the compared output).  The formula of a definition / inductive-lemma error
+   is `self.clone()` resp. `original`: the formula the check was called on, i.e. AFTER the
+   placeholder replacement(s) and, for lemmas, the universal closure with quantifier joining that
+   from_specification applies before the call. *)
 Inductive po_error :=
-| AnnotatedFormulaWithInvalidRole | DuplicatedVariables | TakenPredicate | FreeRhsVariables
-| UndefinedRhsPredicate | DefinedPredicateVariableListMismatch | TermsInDefinition
-| MalformedInductiveLemma | MalformedInductiveAntecedent | MalformedInductiveVariables
-| MalformedInductiveTerm | MalformedDefinition | InvalidRoleForGeneralLemma.
-Inductive po_warning := ExcessQuantifiedVariables.
+| AnnotatedFormulaWithInvalidRole (a : aformula_annot)
+| DuplicatedVariables (f : formula)
+| TakenPredicate (p : pred)
+| FreeRhsVariables (f : formula)
+| UndefinedRhsPredicate (definition : formula) (predicate : pred)
+| DefinedPredicateVariableListMismatch (f : formula)
+| TermsInDefinition (term : gterm) (f : formula)
+| MalformedInductiveLemma (f : formula)
+| MalformedInductiveAntecedent (f : formula)
+| MalformedInductiveVariables (f : formula)
+| MalformedInductiveTerm (f : formula)
+| MalformedDefinition (f : formula)
+| InvalidRoleForGeneralLemma (a : aformula_annot).
+Inductive po_warning := ExcessQuantifiedVariables (f : formula).
 
 (* set comparisons on IndexSets (IndexSet == is order-insensitive) *)
 Definition subsetb {A} (dec : forall x y : A, {x = y} + {x <> y}) (a b : list A) : bool :=
@@ -114,13 +128,15 @@ Definition subsetb {A} (dec : forall x y : A, {x = y} + {x <> y}) (a b : list A)
 Definition set_eqb {A} (dec : forall x y : A, {x = y} + {x <> y}) (a b : list A) : bool :=
   subsetb dec a b && subsetb dec b a.
 
-Fixpoint terms_as_vars (ts : list gterm) (acc : list var) : option (list var) :=
+(* the loop `for t in a.terms.iter()`: inl = the set of the terms read as variables, inr = the first
+   term that is not a variable (the `Err(e)` of Variable::try_from, which returns the term itself) *)
+Fixpoint terms_as_vars (ts : list gterm) (acc : list var) : list var + gterm :=
   match ts with
-  | [] => Some acc
+  | [] => inl acc
   | t :: ts' =>
       match gterm_to_var t with
       | Some v => terms_as_vars ts' (iset_insert var_dec acc v)
-      | None => None
+      | None => inr t
       end
   end.
 
@@ -131,24 +147,27 @@ Definition definition (f : formula) (taken : list pred) : result (pred * list po
       match lhs with
       | FAtomic (AAtom p ts) =>
           let uniques := iset_of_list var_dec variables in
-          if Nat.ltb (List.length uniques) (List.length variables) then Err DuplicatedVariables
+          if Nat.ltb (List.length uniques) (List.length variables) then Err (DuplicatedVariables f)
           else match terms_as_vars ts [] with
-          | None => Err TermsInDefinition
-          | Some tv =>
-              if negb (set_eqb var_dec uniques tv) then Err DefinedPredicateVariableListMismatch
+          | inr e => Err (TermsInDefinition e f)
+          | inl tv =>
+              if negb (set_eqb var_dec uniques tv) then Err (DefinedPredicateVariableListMismatch f)
               else
                 let predicate := mkpred p (List.length ts) in
-                if memb pred_dec predicate taken then Err TakenPredicate
-                else if negb (subsetb var_dec (free_variables rhs) uniques) then Err FreeRhsVariables
+                if memb pred_dec predicate taken then Err (TakenPredicate predicate)
+                else if negb (subsetb var_dec (free_variables rhs) uniques) then Err (FreeRhsVariables f)
                 else
                   let warnings := if negb (subsetb var_dec uniques (free_variables rhs))
-                                  then [ExcessQuantifiedVariables] else [] in
-                  if negb (subsetb pred_dec (predicates rhs) taken) then Err UndefinedRhsPredicate
-                  else Ok (predicate, warnings)
+                                  then [ExcessQuantifiedVariables f] else [] in
+                  (* rhs.predicates().difference(taken_predicates).next() *)
+                  match find (fun q => negb (memb pred_dec q taken)) (predicates rhs) with
+                  | Some q => Err (UndefinedRhsPredicate f q)
+                  | None => Ok (predicate, warnings)
+                  end
           end
-      | _ => Err MalformedDefinition
+      | _ => Err (MalformedDefinition f)
       end
-  | _ => Err MalformedDefinition
+  | _ => Err (MalformedDefinition f)
   end.
 
 (* CheckInternal::inductive_lemma; Panic = a panic of Formula::substitute (unreachable: the
@@ -161,7 +180,7 @@ Definition inductive_lemma (f : formula) : result (formula * formula) po_error :
           match guards with
           | [guard] =>
               if negb (set_eqb var_dec (iset_of_list var_dec variables) (free_variables rhs))
-              then Err MalformedInductiveVariables
+              then Err (MalformedInductiveVariables f)
               else match term with
               | GInt (IVar v) =>
                   let iv := mkvar v SInteger in
@@ -174,15 +193,15 @@ Definition inductive_lemma (f : formula) : result (formula * formula) po_error :
                               universal_closure (FBin CImp (FBin CAnd lhs rhs) s))
                       | _, _ => Panic
                       end
-                  | _, _ => Err MalformedInductiveLemma
+                  | _, _ => Err (MalformedInductiveLemma f)
                   end
-              | _ => Err MalformedInductiveTerm
+              | _ => Err (MalformedInductiveTerm f)
               end
-          | _ => Err MalformedInductiveAntecedent
+          | _ => Err (MalformedInductiveAntecedent f)
           end
-      | _ => Err MalformedInductiveLemma
+      | _ => Err (MalformedInductiveLemma f)
       end
-  | _ => Err MalformedInductiveLemma
+  | _ => Err (MalformedInductiveLemma f)
   end.
 
 (* GeneralLemma *)
@@ -202,7 +221,7 @@ Definition general_lemma_try_from (a : aformula_annot) : result general_lemma po
       | Err e => Err e
       | Panic => Panic
       end
-  | RAssumption | RSpec | RDefinition => Err InvalidRoleForGeneralLemma
+  | RAssumption | RSpec | RDefinition => Err (InvalidRoleForGeneralLemma a)
   end.
 
 Record proof_outline := mkoutline {
@@ -254,7 +273,7 @@ Fixpoint from_specification_loop (l : specification) (taken : list pred) (m : pl
                         end in
               from_specification_loop l' (iset_insert pred_dec taken p) m o' (ws ++ w)
           end
-      | RAssumption | RSpec => Err AnnotatedFormulaWithInvalidRole
+      | RAssumption | RSpec => Err (AnnotatedFormulaWithInvalidRole anf)
       end
   end.
 Definition from_specification (s : specification) (taken : list pred) (m : placeholders)
